@@ -1,4 +1,5 @@
 //@ unit u_graph
+//@ rlimit 400
 #![allow(unused_imports)]
 use vstd::prelude::*;
 use vstd::std_specs::cmp::*;
@@ -321,6 +322,46 @@ for node_name in it: node_names
         old(self).self_loop_refused(*edge) ==> *final(self) == *old(self),
         // [C01.add_edge.ignored_duplicate_is_noop]
         !old(self).self_loop_refused(*edge) && !old(self).missing_refused(*edge) && old(self).duplicate_ignored(*edge) ==> *final(self) == *old(self),
+        // [C01.add_edge.nodes_created_source_first]
+        old(self).stores(*edge) ==> ({
+            &&& forall|i: int| 0 <= i < old(self).n() ==> final(self).nodes_vec@[i] == old(self).nodes_vec@[i]
+            &&& final(self).names() == names_after(old(self).names(), old(self).knows(edge.u), old(self).knows(edge.v), edge.u, edge.v)
+            &&& forall|i: int| old(self).n() <= i < final(self).n() ==> (#[trigger] final(self).nodes_vec@[i]).attributes.is_none()
+        }),
+        // [C01.add_edge.wf_preserved]
+        final(self).wf_nodes(),
+        final(self).wf_estore(),
+        final(self).specs == old(self).specs,
+        // [C01.add_edge.store_effect]
+        old(self).stores(*edge) ==> ({
+            let c = final(self).canon(final(self).nodes_map@[edge.u], final(self).nodes_map@[edge.v]);
+            let ex = old(self).existed(*edge);
+            &&& final(self).knows(edge.u) && final(self).knows(edge.v)
+            &&& final(self).has_pair(c.0, c.1)
+            &&& forall|a: usize, b: usize| (a != c.0 || b != c.1) ==> #[trigger] final(self).has_pair(a, b) == old(self).has_pair(a, b)
+            &&& forall|a: usize, b: usize| (a != c.0 || b != c.1) && old(self).has_pair(a, b) ==> #[trigger] final(self).pair_list(a, b) == old(self).pair_list(a, b)
+            &&& (old(self).specs.multi_edges && ex) ==> ({
+                    &&& final(self).pair_list(c.0, c.1).len() == old(self).pair_list(c.0, c.1).len() + 1
+                    &&& forall|k: int| 0 <= k < old(self).pair_list(c.0, c.1).len() ==> final(self).pair_list(c.0, c.1)[k] == old(self).pair_list(c.0, c.1)[k]
+                    &&& *final(self).pair_list(c.0, c.1)[old(self).pair_list(c.0, c.1).len() as int] == old(self).stored_form(*edge)
+                })
+            &&& !(old(self).specs.multi_edges && ex) ==> ({
+                    &&& final(self).pair_list(c.0, c.1).len() == 1
+                    &&& *final(self).pair_list(c.0, c.1)[0] == old(self).stored_form(*edge)
+                })
+        }),
+        // [C03.add_edge.traversal_effect]
+        old(self).stores(*edge) ==> ({
+            let c = final(self).canon(final(self).nodes_map@[edge.u], final(self).nodes_map@[edge.v]);
+            let ex = old(self).existed(*edge);
+            let replace = ex && !old(self).specs.multi_edges;
+            let s0 = rows_ext(rows_of(old(self).successors_vec@), final(self).n());
+            let p0 = rows_ext(rows_of(old(self).predecessors_vec@), final(self).n());
+            &&& old(self).specs.directed ==> rows_of(final(self).successors_vec@) == adj_apply(s0, c.0, c.1, edge.weight, ex, replace)
+            &&& old(self).specs.directed ==> rows_of(final(self).predecessors_vec@) == adj_apply(p0, c.1, c.0, edge.weight, ex, replace)
+            &&& !old(self).specs.directed ==> rows_of(final(self).successors_vec@) == adj_apply(adj_apply(s0, c.0, c.1, edge.weight, ex, replace), c.1, c.0, edge.weight, ex, replace)
+            &&& !old(self).specs.directed ==> rows_of(final(self).predecessors_vec@) == p0
+        }),
 //@ after let edge_already_exists = self.get_edge_by_indexes(u_node_index, v_node_index).is_ok();
         let ghost g1 = *self;
         proof {
@@ -334,10 +375,27 @@ for node_name in it: node_names
             }
             assert(edge_already_exists == old(self).existed(*edge));
             assert(edge_already_exists ==> *self == *old(self));
+            // node creation only appends empty traversal rows
+            assert(rows_of(g1.successors_vec@) =~~= rows_ext(rows_of(old(self).successors_vec@), g1.n()));
+            assert(rows_of(g1.predecessors_vec@) =~~= rows_ext(rows_of(old(self).predecessors_vec@), g1.n()));
         }
 //@ before match self.specs.multi_edges {
         proof {
             lemma_estore_frame(g1, *self);
+        }
+        let ghost g2 = *self;
+//@ before #3 Ok(())
+        proof {
+            // the store changed at the canonical key only; the new list is well-formed
+            assert(g1.name_of(u_node_index) == edge.u && g1.name_of(v_node_index) == edge.v);
+            assert(self.has_pair(ordered_edge_u, ordered_edge_v));
+            assert forall|k: int| 0 <= k < self.pair_list(ordered_edge_u, ordered_edge_v).len() implies
+                self.edge_fits(*#[trigger] self.pair_list(ordered_edge_u, ordered_edge_v)[k], ordered_edge_u, ordered_edge_v) by {
+                if k < g2.pair_list(ordered_edge_u, ordered_edge_v).len() && g2.has_pair(ordered_edge_u, ordered_edge_v) && self.specs.multi_edges {
+                    assert(g2.edge_fits(*g2.pair_list(ordered_edge_u, ordered_edge_v)[k], ordered_edge_u, ordered_edge_v));
+                }
+            }
+            lemma_estore_after_store(g2, *self, ordered_edge_u, ordered_edge_v);
         }
 //@ end
 
